@@ -30,7 +30,8 @@ package indent
 //@ func actualWrittenSize props C20
 //@   requires prefix >= 0
 //@   ensures  result == cb(underlay, prefix, back(lines), off(lines), 0, len(lines))
-//@   ensures  0 <= result && (underlay >= 0 ==> result <= underlay) && result <= total(back(lines), off(lines), len(lines))
+//@   ensures  0 <= result && (underlay >= 0 ==> result <= underlay)
+//@   ensures  result <= total(back(lines), off(lines), len(lines))
 //@   pure
 //@   safe
 //@   nowrap
